@@ -40,7 +40,7 @@ VALID_OPS = [
     "overlap", "overlap_screen", "overlap_T", "overlap_asym", "kinetic", "nuclear", "point_charge", "moment", "momentum", "angmom",
     "eri", "eri_chem", "eval", "eval_T", "deriv", "deriv_direct", "density", "deriv_density", "gradient", "laplacian", "hessian",
     "posdef_ked", "general_ked", "esp", "stress", "force", "ehess", "make_contractions", "make_contractions_str", "make_contractions_tuple",
-    "parse_nwchem", "parse_gbs", "gen_transform", "rdm",
+    "parse_nwchem", "parse_gbs", "gen_transform", "rdm", "overlap_dup", "eri_dup", "eval_dup",
 ]
 INVALID_OPS = [
     "bad_points_shape", "bad_dm_asym", "bad_esp_threshold", "bad_notation", "bad_backend", "bad_direct_order3", "bad_ct_len",
@@ -189,6 +189,11 @@ def op_call(name, P, o):
         "overlap_screen": lambda: overlap_integral(b, tol_screen=[0.5, 1e-1, 1e-3][int(r[0] * 3)]),
         "overlap_T": lambda: overlap_integral(b, transform=P["T"]),
         "overlap_asym": lambda: overlap_integral_asymmetric(b, P["basis2"]),
+        # the same shell OBJECT listed twice (and a third time through another reference): values must be those of a
+        # basis of distinct, equal-valued shells
+        "overlap_dup": lambda: _dup_check(overlap_integral, (b[0], b[-1], b[0])),
+        "eri_dup": lambda: _dup_check(lambda x: electron_repulsion_integral(list(x), notation="chemist"), (b[0], b[0])),
+        "eval_dup": lambda: _dup_check(lambda x: evaluate_deriv_basis(x, P["pts"], P["orders"]), (b[-1], b[0], b[-1])),
         "kinetic": lambda: kinetic_energy_integral(b),
         "nuclear": lambda: nuclear_electron_attraction_integral(b, P["nuc"], P["Z"]),
         "point_charge": lambda: point_charge_integral(b, P["pts"], P["chg"]),
@@ -237,6 +242,24 @@ def op_call(name, P, o):
         "bad_sph_labels": lambda: generate_transformation(1, np.array([[1, 0, 0], [0, 1, 0], [0, 0, 1]]), ("c1", "c1", "c0"), "left"),
     }
     return T[name]
+
+
+class DupMismatch(Exception):
+    pass
+
+
+def _dup_check(fn, dup):
+    """fn on a basis that lists the same shell object more than once must equal fn on distinct equal-valued shells"""
+    from gbasis.contractions import GeneralizedContractionShell as _G
+
+    with np.errstate(under="ignore"):
+        fresh = [_G(int(x.angmom), np.array(x.coord), np.array(x.coeffs), np.array(x.exps), x.coord_type) for x in dup]
+    a = fn(dup)
+    b_ = fn(fresh)
+    ok, why = same_value(a, b_)
+    if not ok:
+        raise DupMismatch("a basis listing the same shell object twice gives another result than distinct equal shells: " + why)
+    return a
 
 
 def apply_update(name, P, o, frozen=False):
@@ -463,6 +486,8 @@ def run_history(case, pool, mode, viols, pass_name):
         mi.STATE.firings = []
         out = outcome_of(thunk)
         evals += 1
+        if out[0] == "exc" and out[1] == "DupMismatch":
+            viols.append(cm.viol("[%s, op %d %s] %s" % (pass_name, k, name, out[2]), "duplicate_shell_object", op=name))
         for f in mi.STATE.take_firings():
             if f["owner"] == "C19":
                 viols.append(cm.viol("[%s, op %d %s] %s fired in %s: %s" % (pass_name, k, name, f["monitor"], f["function"], f["detail"]),
